@@ -59,6 +59,9 @@ func (o opt) String() string {
 		}
 		return "resolver(" + resolvers[o.Res].name + ")"
 	}
+	if o.Val < 0 {
+		return fmt.Sprintf("annot(k%d=nil)", o.Key)
+	}
 	return fmt.Sprintf("annot(k%d=%d)", o.Key, o.Val)
 }
 
@@ -116,6 +119,10 @@ func routeOpt(o opt) fox.RouteOption {
 	case "redirect":
 		return fox.WithRedirectTrailingSlash(o.On)
 	case "annot":
+		if o.Val < 0 {
+			// an explicitly nil value: the last value set for the key is nil
+			return fox.WithAnnotation(annotKey{o.Key}, nil)
+		}
 		return fox.WithAnnotation(annotKey{o.Key}, o.Val)
 	default:
 		if o.Res < 0 {
@@ -155,7 +162,7 @@ func genOpts(r *rand.Rand, n int, global bool) []opt {
 			}
 			out = append(out, opt{Kind: "resolver", Res: res})
 		default:
-			out = append(out, opt{Kind: "annot", Key: r.IntN(3), Val: r.IntN(100)})
+			out = append(out, opt{Kind: "annot", Key: r.IntN(3), Val: r.IntN(100) - 15})
 		}
 	}
 	return out
@@ -186,6 +193,54 @@ func main() {
 	})
 	invalid(run)
 	concurrent(run)
+	wildcardCount(run)
+}
+
+// wildcardCount: the documented default limit on wildcards per route is math.MaxUint16; the count reported by
+// ParamsLen is the number of wildcards declared, at and around that limit and around a configured limit.
+func wildcardCount(run *kit.Run) {
+	h := func(fox.Context) {}
+	mk := func(n int) string {
+		var sb strings.Builder
+		sb.Grow(4*n + 1)
+		for i := 0; i < n; i++ {
+			sb.WriteString("/{a}")
+		}
+		return sb.String()
+	}
+	type lc struct {
+		limit int // 0 = default
+		n     int
+	}
+	for _, c := range []lc{{0, 65534}, {0, 65535}, {0, 65536}, {0, 65537}, {0, 65536 + 3}, {0, 131072}, {0, 131075}, {255, 255}, {255, 256}, {255, 65536 + 255}, {255, 65536 + 256}, {1, 65537}, {65535, 65536}, {65535, 131071}} {
+		var opts []fox.GlobalOption
+		limit := 65535
+		if c.limit > 0 {
+			opts = append(opts, fox.WithMaxRouteParams(uint16(c.limit)))
+			limit = c.limit
+		}
+		f, err := fox.New(opts...)
+		if err != nil {
+			run.Inconclusive("fox.New: %v", err)
+			return
+		}
+		id := fmt.Sprintf("wildcards=%d|limit=%d", c.n, limit)
+		run.Case("wildcard-count|"+id, true)
+		run.Eval(1)
+		run.Guard("wildcard-count-panic|"+id, c, func() {
+			rte, err := f.NewRoute(mk(c.n), h)
+			switch {
+			case c.n > limit && err == nil:
+				run.Violate("wildcard-count|"+id, fmt.Sprintf("a pattern with %d wildcards is accepted although the limit is %d (ParamsLen()=%d)", c.n, limit, rte.ParamsLen()), c)
+			case c.n > limit && !errors.Is(err, fox.ErrInvalidRoute):
+				run.Violate("wildcard-count|"+id, fmt.Sprintf("a pattern with %d wildcards (limit %d) is rejected with %v, expected ErrInvalidRoute", c.n, limit, err), c)
+			case c.n <= limit && err != nil:
+				run.Violate("wildcard-count|"+id, fmt.Sprintf("a pattern with %d wildcards is rejected although the limit is %d: %v", c.n, limit, err), c)
+			case c.n <= limit && rte.ParamsLen() != c.n:
+				run.Violate("wildcard-count|"+id, fmt.Sprintf("a pattern with %d wildcards reports ParamsLen()=%d", c.n, rte.ParamsLen()), c)
+			}
+		})
+	}
 }
 
 type tagKey struct{}
@@ -377,7 +432,7 @@ func check(run *kit.Run, c caseT) {
 		for k := 0; k < 4; k++ {
 			v, ok := want.annots[k]
 			got := rte.Annotation(annotKey{k})
-			if (ok && got != v) || (!ok && got != nil) {
+			if (ok && v >= 0 && got != v) || (ok && v < 0 && got != nil) || (!ok && got != nil) {
 				problems = append(problems, fmt.Sprintf("Annotation(k%d)=%v, expected %v (set=%t)", k, got, v, ok))
 			}
 		}
